@@ -690,12 +690,52 @@ func (f *c03Format) longLineTask() mc.Task {
 	}}
 }
 
+// manyRowsTask: files written by goalign's own writers for alignments of 99..102 and 257 rows and 70 columns (two
+// blocks in the interleaved formats): tables that start with room for 100 rows and grow.
+func (f *c03Format) manyRowsTask() mc.Task {
+	return mc.Task{Name: f.Name + "-many-rows", Run: func(c *mc.Ctx) {
+		c03Setup()
+		for _, n := range []int{99, 100, 101, 102, 257} {
+			al := align.NewAlign(align.NUCLEOTIDS)
+			for i := 0; i < n; i++ {
+				b := make([]byte, 70)
+				for j := range b {
+					b[j] = "ACGT-"[(i+j*3+i*j)%5]
+				}
+				al.AddSequence(fmt.Sprintf("s%03d", i), string(b), "")
+			}
+			var text string
+			switch f.Name {
+			case "fasta":
+				text = fasta.WriteAlignment(al)
+			case "phylip":
+				text = phylip.WriteAlignment(al, false, false, false)
+			case "nexus":
+				text = nexus.WriteAlignment(al)
+			case "clustal":
+				text = clustal.WriteAlignment(al)
+			case "stockholm":
+				text = stockholm.WriteAlignment(al)
+			default:
+				return
+			}
+			for _, v := range []string{text, text[:len(text)-1], text[:len(text)/2]} {
+				c.Count("inputs/"+f.Name+"-many-rows", 1)
+				f.checkAll(c, v, false)
+			}
+			if c.Expired() {
+				return
+			}
+		}
+	}}
+}
+
 func c03Tasks(tier string) []mc.Task {
 	thorough := tier == "thorough"
 	fs := c03Formats()
 	var ts []mc.Task
 	for _, f := range fs {
-		ts = append(ts, f.longLineTask())
+		ts = append(ts, f.longLineTask(), f.manyRowsTask())
 	}
 	// simplest first: raw byte strings, then the contexts, tokens, seeds, splices
 	for _, f := range fs {
@@ -768,7 +808,7 @@ func init() {
 	mc.Register(&mc.Prop{
 		ID:    "C03",
 		Level: "exploration",
-		Rule: "(also: the auto-detecting entry point on every string of <= 3 bytes over {space, LF, CR, TAB, 2, a, >, #, C} and on every truncation of a relaxed Phylip stream, a strict Phylip, a FASTA, a Nexus and a Clustal file, strict and relaxed, under the controlled scheduler: an explicit error or well-formed alignments, never a nil or empty one; every seed file and every truncation of it read through a reader that ends with a read error instead of end-of-file, as a truncated compressed file does; per format, files whose row or name lines are 4080..4100 and 8180..8196 bytes long, with LF, CRLF, without final newline and cut inside the last line - the read buffer is 4096 bytes;) bounded-exhaustive enumeration of inputs; every input is given to every entry point of its format — fasta.Parse, fasta.ParseUnalign, phylip Parse and ParseMultiple (strict and relaxed), nexus.Parse, clustal.Parse, stockholm.Parse, " +
+		Rule: "(also: the auto-detecting entry point on every string of <= 3 bytes over {space, LF, CR, TAB, 2, a, >, #, C} and on every truncation of a relaxed Phylip stream, a strict Phylip, a FASTA, a Nexus and a Clustal file, strict and relaxed, under the controlled scheduler: an explicit error or well-formed alignments, never a nil or empty one; every seed file and every truncation of it read through a reader that ends with a read error instead of end-of-file, as a truncated compressed file does; per format, files whose row or name lines are 4080..4100 and 8180..8196 bytes long, with LF, CRLF, without final newline and cut inside the last line - the read buffer is 4096 bytes; per format, the files goalign writes for alignments of 99..102 and 257 rows of 70 columns, whole, without their last byte and cut in the middle;) bounded-exhaustive enumeration of inputs; every input is given to every entry point of its format — fasta.Parse, fasta.ParseUnalign, phylip Parse and ParseMultiple (strict and relaxed), nexus.Parse, clustal.Parse, stockholm.Parse, " +
 			"partition.Parse(length 0, 1, 5) — under all 9 combinations of duplicate-name policy {none, name, sequence} x alphabet {auto, nucleotide, amino acid} (partition: no options), through a reader that hands out the input, then io.EOF, and counts reads after the end " +
 			"(more than 10000 = the call never returns). Inputs per format: (a) bytes: Pre+s+Post for every context (Pre, Post) of the format (the empty context first; then places inside a file: after the header, inside a DIMENSIONS / FORMAT / MATRIX / TAXA command, " +
 			"in a second block, after a complete alignment, inside a strict Phylip name …) and every byte string s of length <= 4 (quick) / 5 (thorough) over the format's 10-13 byte alphabet (its punctuation, letters, digits, space, LF, CR, NUL, 0xFF); " +
